@@ -1,7 +1,7 @@
 // C18 implementation driver: runs the real util::FilePiece / util::ReadCompressed on the cases read from stdin
 // (one per line, numbers and byte strings in hex) and prints one canonical transcript line per case.
 // Protocol (shared with ocaml/c18_driver.ml):
-//   FP <backend> <min_buffer> <plainhex|-> <comphex|-> <chunks|-> <ops>
+//   FP <backend> <min_buffer> <plainhex|-> <comphex|-> <chunks|-> <ops>      chunks: hex lengths of the successive read() calls, 'i' = that call is interrupted (-1/EINTR)
 //        backend  M  regular file through the constructor taking a name (mmap backend)
 //                 R  pipe fd whose read() results are dictated by <chunks> (read backend, deterministic short reads)
 //                 P  real pipe, a writer thread write()s the data in <chunks>-sized pieces (kernel decides the reads)
@@ -49,6 +49,7 @@ __attribute__((weak)) LineInput::LineInput(int fd) : fd_(fd) {}
 }}
 
 namespace {
+const size_t kInterrupted = (size_t)-1;
 int g_fd = -1;
 std::string g_data;
 size_t g_pos = 0;
@@ -71,6 +72,7 @@ extern "C" ssize_t read(int fd, void *buf, size_t count) {
   if (n > count) n = count;
   if (g_chunk_i < g_chunks.size()) {
     size_t c = g_chunks[g_chunk_i++];
+    if (c == kInterrupted) { errno = EINTR; return -1; }   // a signal arrived before any byte: what a handler without SA_RESTART does
     if (c < 1) c = 1;
     if (n > c) n = c;
   }
@@ -95,7 +97,8 @@ std::vector<size_t> numlist(const std::string &s) {
   while (i < s.size()) {
     size_t j = s.find(',', i);
     if (j == std::string::npos) j = s.size();
-    r.push_back(strtoull(s.substr(i, j - i).c_str(), NULL, 16));
+    if (s.compare(i, j - i, "i") == 0) r.push_back(kInterrupted);     // this read() call is interrupted: -1 / EINTR
+    else r.push_back(strtoull(s.substr(i, j - i).c_str(), NULL, 16));
     i = j + 1;
   }
   return r;
@@ -140,6 +143,7 @@ void writer_thread(int fd, std::string data, std::vector<size_t> chunks) {
   size_t off = 0, k = 0;
   while (off < data.size()) {
     size_t n = chunks.empty() ? 4096 : chunks[k++ % chunks.size()];
+    if (n == kInterrupted) n = 1;
     if (n < 1) n = 1;
     if (n > data.size() - off) n = data.size() - off;
     ssize_t w = write(fd, data.data() + off, n);
